@@ -136,8 +136,13 @@ def generate(ctx):
                     if r_ < 0.15 and strs:
                         # a constant whose TEXT holds an "=": no assignment
                         e = (rng.choice(["==", "!="]), ("field", rng.choice(strs)), ("sconst", rng.choice(["a=b", "k = 1"])))
+                    if 0.3 <= r_ < 0.5:
+                        # a bare comparison written with '<=' / '>=': an '=' that assigns nothing
+                        e = (rng.choice(["<=", ">="]), ("field", rng.choice(num_now)[0]), ("const", rng.choice([0, 1, 2, 3, 2.5])))
                     text = c07.render(e, c07.nested_ref(NEST, quote))
                     plain = c07.render(e, c07.plain_ref)
+                    if 0.3 <= r_ < 0.5 and text.startswith("(") and text.endswith(")"):
+                        text, plain = text[1:-1], plain[1:-1]          # written WITHOUT the outer brackets
                     if 0.15 <= r_ < 0.3:
                         # a method call with a keyword argument: no assignment either
                         f_ = rng.choice(num_now)[0]
